@@ -8,7 +8,7 @@ are put together: `Duplex` holds the connection twice, once per direction, `ab` 
 endpoint B as the sender; `Same` says that the two views hold THE SAME two endpoints (`ab.a = ba.b`, `ab.b = ba.a`). Every
 step of the duplex system — an application send at either end, a keep-alive of either end, the delivery of any packet ever
 emitted in either direction to the other end's `handle`, any acknowledgement arriving at either end, a retransmission timer
-of either end firing — is one `Sys` step in each view (the main step in one, a frame step in the other); `duplex_step` shows
+of either end firing, any packet with a signature its receiver does not expect arriving at either end — is one `Sys` step in each view (the main step in one, a frame step in the other); `duplex_step` shows
 the two views stay the same pair of endpoints and both stay coupled to their L2 channels. Hence (`duplex_safe`) in every
 reachable state what B's application can read is a prefix of what A's application sent AND what A's can read is a prefix
 of what B's sent — for every interleaving of the sends, deliveries, acknowledgements and timers of both directions.
@@ -40,6 +40,8 @@ inductive DOp where
   | ackToB (now : Time) (p : Packet)
   | resendA (now : Time) (p : Packet) (k : Nat)   -- a retransmission timer of A fires
   | resendB (now : Time) (p : Packet) (k : Nat)
+  | injectA (now : Time) (p : Packet)     -- ANY packet whose signature is not the one A expects arrives at A (forged, corrupted, stray)
+  | injectB (now : Time) (p : Packet)
 
 /-- the step as seen in direction A→B -/
 def DOp.inAB (sub : Nat) (d : Duplex) : DOp → Option SysOp
@@ -57,6 +59,8 @@ def DOp.inAB (sub : Nat) (d : Duplex) : DOp → Option SysOp
   | .ackToB now p => some (.bAckIn now p)
   | .resendA now p k => some (.fireResend now p k)
   | .resendB now p k => some (.bFireResend now p k)
+  | .injectA now p => some (.aInject now p)
+  | .injectB now p => some (.inject now p)
 
 /-- the step as seen in direction B→A -/
 def DOp.inBA (sub : Nat) (d : Duplex) : DOp → Option SysOp
@@ -74,6 +78,8 @@ def DOp.inBA (sub : Nat) (d : Duplex) : DOp → Option SysOp
   | .ackToB now p => some (.ackIn now p)
   | .resendA now p k => some (.bFireResend now p k)
   | .resendB now p k => some (.fireResend now p k)
+  | .injectA now p => some (.inject now p)
+  | .injectB now p => some (.aInject now p)
 
 def Sys.stepO (env : Env) (sub : Nat) (s : Sys) : Option SysOp → Sys
   | none => s
@@ -148,6 +154,8 @@ theorem same_step (env : Env) (sub : Nat) (d : Duplex) (op : DOp) (h : d.Same) :
   | ackToB now p => refine ⟨?_, ?_⟩ <;> simp only [Duplex.step, DOp.inAB, DOp.inBA, Sys.stepO, Sys.step, ha, hb]
   | resendA now p k => refine ⟨?_, ?_⟩ <;> simp only [Duplex.step, DOp.inAB, DOp.inBA, Sys.stepO, Sys.step, ha, hb]
   | resendB now p k => refine ⟨?_, ?_⟩ <;> simp only [Duplex.step, DOp.inAB, DOp.inBA, Sys.stepO, Sys.step, ha, hb]
+  | injectA now p => refine ⟨?_, ?_⟩ <;> simp only [Duplex.step, DOp.inAB, DOp.inBA, Sys.stepO, Sys.step, ha, hb]
+  | injectB now p => refine ⟨?_, ?_⟩ <;> simp only [Duplex.step, DOp.inAB, DOp.inBA, Sys.stepO, Sys.step, ha, hb]
 
 /-- both directions coupled to their channels, over the same two endpoints -/
 structure DGood (env : Env) (sub : Nat) (ciA ciB : Cipher) (sizeA sizeB startA startB : Nat) (d : Duplex) (chAB chBA : Chan) : Prop where
